@@ -128,8 +128,116 @@ pub fn check_document(rep: &mut Report, fe: &str, text: &str, group: &mut LintGr
     }
 }
 
+/// chunk (hull span, chars) of `doc` that contains char position `pos`
+fn chunk_at(doc: &harper_core::Document, pos: usize) -> Option<(harper_core::Span, Vec<char>)> {
+    use harper_core::TokenStringExt;
+    for ch in doc.iter_chunks() {
+        if let Some(sp) = ch.span() {
+            if sp.start <= pos && pos < sp.end {
+                return Some((sp, doc.get_span_content(&sp).to_vec()));
+            }
+        }
+    }
+    None
+}
+
+/// Cache re-basing (LintGroup::lint): the same clause seen at chunk start `a` and later, by the SAME
+/// linter, at chunk start `a2`.  Correspondence line `B a a2 spans-of-first-sighting` against the
+/// spans the linter reports for the second sighting; the ordinary in-bounds/splice oracle runs on both.
+fn recurrence(rep: &mut Report, r: &mut Rng, dict: &std::sync::Arc<FstDictionary>, trig: &str, same_doc: bool) {
+    let clause = format!(" and we saw {trig} again");
+    let p1 = gen::clean_sentence(r).trim_end_matches('.').to_string();
+    let mut p2 = format!("{} {}", gen::clean_sentence(r).trim_end_matches('.'), gen::clean_sentence(r).trim_end_matches('.').to_lowercase());
+    if p2.chars().count() == p1.chars().count() {
+        p2.push_str(" indeed");
+    }
+    let t1 = gen::clean_sentence(r).to_lowercase();
+    let t2 = gen::clean_sentence(r).to_lowercase();
+    let d1 = format!("{p1},{clause}, {t1}");
+    let d2 = format!("{p2},{clause}, {t2}");
+    let (text1, text2, off2) = if same_doc {
+        let sep = *r.pick(&["\n\n", " ", "\n"]);
+        let whole = format!("{d1}{sep}{d2}");
+        let off = d1.chars().count() + sep.chars().count();
+        (whole.clone(), whole, off)
+    } else {
+        (d1.clone(), d2.clone(), 0)
+    };
+    let pos1 = p1.chars().count() + 3;
+    let pos2 = off2 + p2.chars().count() + 3;
+    recurrence_run(rep, dict, trig, &text1, &text2, pos1, pos2, same_doc);
+}
+
+fn recurrence_run(rep: &mut Report, dict: &std::sync::Arc<FstDictionary>, trig: &str, text1: &str, text2: &str, pos1: usize, pos2: usize, same_doc: bool) {
+    let (text1, text2) = (text1.to_string(), text2.to_string());
+    let inp = json!({"kind": "recurrence", "trigger": trig, "same_doc": same_doc, "text1": text1, "text2": text2, "pos1": pos1, "pos2": pos2});
+    let mut g = LintGroup::new_curated(dict.clone(), Dialect::American);
+    g.set_all_rules_to(Some(true));
+    let res = guarded(|| {
+        let doc1 = frontends::make_document("plain", &text1, dict);
+        let c1 = chunk_at(&doc1, pos1);
+        let l1 = g.lint(&doc1);
+        if same_doc {
+            let c2 = chunk_at(&doc1, pos2);
+            (c1, c2, l1.clone(), l1)
+        } else {
+            let doc2 = frontends::make_document("plain", &text2, dict);
+            let c2 = chunk_at(&doc2, pos2);
+            let l2 = g.lint(&doc2);
+            (c1, c2, l1, l2)
+        }
+    });
+    let Ok((Some((sp1, ch1)), Some((sp2, ch2)), l1, l2)) = res else {
+        rep.count("recurrence:skipped(panic or no chunk)");
+        return;
+    };
+    if ch1 != ch2 || sp1.start == sp2.start {
+        rep.count("recurrence:skipped(chunks differ)");
+        return;
+    }
+    rep.eval();
+    let within = |ls: &[harper_core::linting::Lint], sp: harper_core::Span| -> Vec<(usize, usize)> {
+        let mut v: Vec<(usize, usize)> = ls.iter().filter(|l| l.span.start >= sp.start && l.span.start < sp.end).map(|l| (l.span.start, l.span.end)).collect();
+        v.sort();
+        v
+    };
+    let s1 = within(&l1, sp1);
+    let s2 = within(&l2, sp2);
+    if !s1.is_empty() {
+        rep.nontrivial(&(text1.clone(), text2.clone()));
+        rep.count(if same_doc { "recurrence:same_document" } else { "recurrence:next_document" });
+    } else {
+        rep.count("recurrence:no_lint_in_clause");
+    }
+    let flat = |v: &[(usize, usize)]| v.iter().map(|(a, b)| format!("{a} {b}")).collect::<Vec<_>>().join(" ");
+    rep.case(format!("B {} {} {}", sp1.start, sp2.start, flat(&s1)).trim(), flat(&s2).trim());
+    // the second sighting must also satisfy the property itself
+    let n2 = text2.chars().count();
+    for l in &l2 {
+        if !(l.span.start <= l.span.end && l.span.end <= n2) {
+            rep.fail("lint_out_of_bounds", format!("lint {:?} {:?} of a clause served from the chunk cache lies outside the text of length {n2}", l.lint_kind, l.span),
+                inp.clone());
+        }
+    }
+    // ... and flag the same characters as the first sighting did (a re-based span that stays inside the
+    // text but points at other characters is still a lint that does not point at its problem)
+    let c1: Vec<char> = text1.chars().collect();
+    let c2: Vec<char> = text2.chars().collect();
+    if s1.len() == s2.len() {
+        for ((a1, b1), (a2, b2)) in s1.iter().zip(&s2) {
+            if *b1 <= c1.len() && *b2 <= c2.len() && a1 <= b1 && a2 <= b2 && c1[*a1..*b1] != c2[*a2..*b2] {
+                rep.fail("cache_rebase_moves_lint", format!("the clause's lint flags {:?} at its first sighting but {:?} when served from the chunk cache",
+                    c1[*a1..*b1].iter().collect::<String>(), c2[*a2..*b2].iter().collect::<String>()), inp.clone());
+                break;
+            }
+        }
+    }
+}
+
 pub fn replay_input(rep: &mut Report, v: &Value, group: &mut LintGroup, dict: &std::sync::Arc<FstDictionary>) {
     match v["kind"].as_str() {
+        Some("recurrence") => recurrence_run(rep, dict, v["trigger"].as_str().unwrap_or(""), v["text1"].as_str().unwrap_or(""), v["text2"].as_str().unwrap_or(""),
+            v["pos1"].as_u64().unwrap_or(0) as usize, v["pos2"].as_u64().unwrap_or(0) as usize, v["same_doc"].as_bool().unwrap_or(false)),
         Some("document") => {
             if v["config"].as_str() == Some("all") {
                 group.set_all_rules_to(Some(true));
@@ -219,6 +327,12 @@ pub fn run(a: &Args, corpus: &[Value]) {
             _ => format!("{clean_open} {c}"),
         };
         check_document(&mut rep, fe, &text, &mut group, &dict, "all");
+    }
+    // the chunk cache: clauses that recur at another offset, in the same and in the next document
+    for (i, c) in gen::TRIGGERS.iter().enumerate() {
+        for rep_i in 0..a.scale(2, 12) {
+            recurrence(&mut rep, &mut r, &dict, c, (i + rep_i) % 2 == 0);
+        }
     }
     // documents in every front-end
     let mut fes = frontends::base_frontends();
